@@ -26,11 +26,10 @@ b=ok; for m in . internal/cmd/tlgen telegram/deeplinks; do (cd $wt/$m && go buil
 rundemo seeded && res "demo with change: PASS (not a valid seed)" || res "demo with change: FAIL (as required)"
 while read f; do rm -f $wt/$f; done < $out/demo/FILES
 s=$(/verif/tools/baseline.sh $wt 2>&1 | tr '\n' ' '); res "pinned suite with change: $s"
+# run every check against the scratch worktree with the change applied (tools/seedmatrix.sh repeats this on /repo
+# itself: git -C /repo apply, run, git -C /repo checkout -- .)
+GOFLAGS=-mod=vendor /verif/bin/verif check -property all -repo $wt -verif /verif -no-evidence > $out/checks.txt 2>&1
 git -C /repo worktree remove --force $wt
-# run the registered checks against /repo with the change applied, then undo
-git -C /repo apply $out/patch.diff || { res "patch does not apply to /repo"; exit 2; }
-GOFLAGS=-mod=vendor /verif/bin/verif check -property all -repo /repo -verif /verif -no-evidence > $out/checks.txt 2>&1
-git -C /repo checkout -- . ; git -C /repo status --short | head -3
 fired=$(grep '^VIOLATION' $out/checks.txt | sed 's/.*property=\([A-Z0-9]*\).*/\1/' | tr '\n' ' ')
 res "checks that fire: ${fired:-none}"
 grep -E '^(VIOLATED|UNDECIDED)' $out/checks.txt | cut -c1-260 | head -8 | tee -a $out/verify.log
